@@ -15,14 +15,18 @@ pub struct Hang {
     pub tid: i32,
     pub state: String,
     pub syscall: String,
+    /// clock ticks of CPU time the thread consumed during the one-second sampling interval
+    pub cpu_ticks: u64,
 }
 
-fn task_info(tid: i32) -> (String, String) {
+fn task_info(tid: i32) -> (String, String, u64) {
     let stat = std::fs::read_to_string(format!("/proc/self/task/{}/stat", tid)).unwrap_or_default();
-    // state is the field after the ")" closing the comm
-    let state = stat.rsplit(')').next().and_then(|r| r.split_whitespace().next()).unwrap_or("?").to_string();
+    // fields after the ")" closing the comm: state is the first, utime/stime the 12th/13th
+    let rest: Vec<&str> = stat.rsplit(')').next().unwrap_or("").split_whitespace().collect();
+    let state = rest.first().unwrap_or(&"?").to_string();
+    let ticks = rest.get(11).and_then(|x| x.parse::<u64>().ok()).unwrap_or(0) + rest.get(12).and_then(|x| x.parse::<u64>().ok()).unwrap_or(0);
     let sc = std::fs::read_to_string(format!("/proc/self/task/{}/syscall", tid)).unwrap_or_default();
-    (state, sc.split_whitespace().next().unwrap_or("?").to_string())
+    (state, sc.split_whitespace().next().unwrap_or("?").to_string(), ticks)
 }
 
 /// Run `f` on a helper thread; if it does not finish within the watchdog, report a hang
@@ -54,13 +58,13 @@ pub fn watched_for<T: Send + 'static>(
             Ok(v)
         },
         Err(_) => {
-            let (s1, c1) = task_info(tid);
+            let (s1, c1, t1) = task_info(tid);
             // one more second: maybe it was only slow
             match rx.recv_timeout(Duration::from_secs(1)) {
                 Ok(v) => Ok(v),
                 Err(_) => {
-                    let (s2, c2) = task_info(tid);
-                    Err(Hang { tid, state: format!("{}/{}", s1, s2), syscall: format!("{}/{}", c1, c2) })
+                    let (s2, c2, t2) = task_info(tid);
+                    Err(Hang { tid, state: format!("{}/{}", s1, s2), syscall: format!("{}/{}", c1, c2), cpu_ticks: t2.saturating_sub(t1) })
                 },
             }
         },
@@ -71,8 +75,13 @@ pub fn hang_failure(sig: &str, what: &str, h: Hang) -> Failure {
     // sleeping ("S") in the same syscall at both samples => established hang, else inconclusive
     let st: Vec<&str> = h.state.split('/').collect();
     let sc: Vec<&str> = h.syscall.split('/').collect();
+    let ticks_per_s = unsafe { libc::sysconf(libc::_SC_CLK_TCK) }.max(1) as u64;
     if st.len() == 2 && st[0] == "S" && st[1] == "S" && sc[0] == sc[1] {
         Failure::new(sig, format!("{}: thread {} blocked (state {}, syscall {})", what, h.tid, h.state, h.syscall)).poisoned()
+    } else if h.cpu_ticks * 2 >= ticks_per_s {
+        // not asleep but burning CPU (at least half of the sampling second): a call that spins
+        // without ever returning; a merely starved thread would not accumulate CPU time
+        Failure::new(sig, format!("{}: thread {} never returns and keeps spinning (state {}, {} of {} clock ticks consumed in the sampling second)", what, h.tid, h.state, h.cpu_ticks, ticks_per_s)).poisoned()
     } else {
         Failure::inconclusive(format!("{}: watchdog expired but thread not asleep (state {}, syscall {})", what, h.state, h.syscall)).poisoned()
     }
